@@ -117,3 +117,9 @@ def extra_checks(rng, tier, g, info):
 
 
 known_match = common.no_known
+
+
+def literal_ops(lit):
+    if lit <= 80:
+        yield "mn_from_ent " + sx("5a" * lit)
+        yield "mn_from_ent " + sx("00" * lit)
